@@ -33,6 +33,7 @@ CANON = {"a": "a", "b": "b", "none": "none", "ca": "a", "cb": "b"}
 
 _ORIG_CFS = _be.cache_from_source
 _ORIG_WA = _be._write_atomic
+_ORIG_IO = _be._io
 _BASE = None
 _COUNTER = [0]
 
@@ -145,6 +146,7 @@ def soft_restart(world):
         pass
     _be.cache_from_source = _ORIG_CFS
     _be._write_atomic = _ORIG_WA
+    _be._io = _ORIG_IO
     for k in list(sys.path_importer_cache):
         if k.startswith(_BASE):
             del sys.path_importer_cache[k]
@@ -155,6 +157,30 @@ def soft_restart(world):
 
 class _Crash(BaseException):
     pass
+
+
+class _IoSeam:
+    """File-system seam under importlib's source reads (importlib._bootstrap_external._io): a pending source edit
+    lands immediately AFTER the bytes of the chosen source file have been read, i.e. while the import that read
+    them is still in flight (editor save / checkout racing with the run).  Everything else is forwarded."""
+
+    def __init__(self):
+        self.pending = None  # (path, callback)
+
+    def __getattr__(self, name):
+        return getattr(_ORIG_IO, name)
+
+    def open_code(self, path):
+        if self.pending is not None and os.path.abspath(path) == self.pending[0]:
+            import io
+
+            with _ORIG_IO.open_code(path) as f:
+                data = f.read()
+            cb = self.pending[1]
+            self.pending = None
+            cb()
+            return io.BytesIO(data)
+        return _ORIG_IO.open_code(path)
 
 
 class _PytestConfig:
@@ -226,6 +252,9 @@ def run_one(world, run, bytecode, stats):
         return _ORIG_WA(path, data, mode)
 
     _be._write_atomic = write_atomic
+    ioseam = _IoSeam()
+    _be._io = ioseam
+    inflight = {}
     crashed = False
     try:
         for i, op in enumerate(run["ops"]):
@@ -274,6 +303,20 @@ def run_one(world, run, bytecode, stats):
                 log0 = len(hsim_spy.LOG)
                 exc = None
                 target = op["module"]
+                inflight.clear()
+                ed = op.get("edit_during")
+                if ed:
+                    def land(ed=ed):
+                        m_ = ed["module"]
+                        inflight[m_] = world.versions[m_]  # the import in flight may legitimately run the text it read
+                        world.versions[m_] += 1
+                        if not ed.get("same_len"):
+                            world.pad[m_] += ed.get("grow", 1)
+                        world.clock += ed.get("clock", 2)
+                        world.write(m_)
+                        stats.inc("fault:source_edit_landed_during_import")
+
+                    ioseam.pending = (os.path.abspath(mod_file(world.root, ed["module"])), land)
                 try:
                     if k == "import":
                         importlib.import_module(target)
@@ -292,6 +335,7 @@ def run_one(world, run, bytecode, stats):
                     raise
                 except BaseException as e:
                     exc = e
+                ioseam.pending = None
                 stats.inc("op:" + k)
                 fired_now = [f for f in st.fired]
                 if exc is not None and world.broken:
@@ -320,7 +364,9 @@ def run_one(world, run, bytecode, stats):
                     rec = {"module": name, "run_hooks": [(h["names"], h["checker"]) for h in hooks if h["active"]],
                            "instrumented": inst, "checkers_seen": got, "version_run": ver, "version_source": cur}
                     observations.append([name, inst, got, ver])
-                    if ver != cur or (callable(getattr(mod, "which", None)) and mod.which() != cur):
+                    if ver == inflight.get(name) and (not callable(getattr(mod, "which", None)) or mod.which() == ver):
+                        stats.inc("loaded_text_read_before_concurrent_edit")
+                    elif ver != cur or (callable(getattr(mod, "which", None)) and mod.which() != cur):
                         problems.append(dict(rec, what="stale code: module executed code of an older source version"))
                     if inst != exp_inst:
                         problems.append(dict(rec, what="instrumented although no active hook covers it" if inst
@@ -374,6 +420,7 @@ def run_one(world, run, bytecode, stats):
         # end-of-run invariants that the next op of the SAME process would rely on
         leaked = _be.cache_from_source is not _ORIG_CFS
         _be._write_atomic = _ORIG_WA
+        _be._io = _ORIG_IO
     if leaked and not crashed:
         # informational (white-box): the process ends here, so by itself this is not a violation of C18;
         # its behavioural consequences (a later import cached under the wrong name) are what the oracle checks
